@@ -36,6 +36,7 @@ pub struct Rec {
     samples: BTreeMap<String, usize>,
     sets: BTreeMap<String, std::collections::BTreeSet<String>>,
     viol_total: u64,
+    marker_calls: u64,
     pub sample_cap: usize,
     pub viol_detail_cap: u64,
 }
@@ -55,6 +56,7 @@ impl Rec {
             samples: BTreeMap::new(),
             sets: BTreeMap::new(),
             viol_total: 0,
+            marker_calls: 0,
             sample_cap: 3,
             viol_detail_cap: 3,
         }
@@ -149,6 +151,14 @@ impl Rec {
             }
             line.push('\n');
             let _ = f.write_all_at(line.as_bytes(), 0);
+        }
+    }
+    /// like case_marker, but only every `every`-th call writes (a LOCAL counter: throttling on
+    /// the global case number silently never fires on shards whose residue never matches)
+    pub fn case_marker_throttled(&mut self, case: u64, what: &str, every: u64) {
+        self.marker_calls += 1;
+        if self.marker_calls % every.max(1) == 1 || every <= 1 {
+            self.case_marker(case, what);
         }
     }
     /// flush counters / coverage accumulated so far (deltas)
